@@ -219,10 +219,11 @@ impl RecomputeHeap {
         {
             // this should be ensured by adjust-heights-heap's tracking of highest node seen.
             for i in new_max_height + 1..queues.len() {
-                assert!(queues.get(i).is_none())
+                assert!(queues[i].borrow().is_empty())
             }
         }
-        queues.resize(new_max_height, Queue::default());
+        // one queue per admissible height 0..=new_max_height, as in `new`
+        queues.resize(new_max_height + 1, Queue::default());
         self.height_lower_bound.set(std::cmp::min(
             self.height_lower_bound.get(),
             queues.len() as i32 + 1,
